@@ -17,6 +17,8 @@ func init() {
 			"C01.2 that allocation comes from the manager lookup keyed by the request's own 5-tuple; " +
 			"C01.3 AddPermission / AddChannelBind / CreateTCPConnection in package server are dominated by GrantPermission(req.SrcAddr, ip)==nil for the very IP installed (and by ipMatchesFamily(ip, alloc.AddressFamily()) for the first two); " +
 			"C01.4 the guard functions have the required shape (GetPermission = map lookup by FingerprintAddr(arg); GetChannelByNumber returns only the element whose Number equals the argument; GrantPermission returns nil only if the handler is nil or returned true for the passed arguments; ipMatchesFamily true only under family==v4/v6 with the To4/To16 tests); " +
+			"C01.6 the address installed in a permission/binding is decoded into storage local to the installing invocation (no aliasing with later decodes, so the entry expires under its own key); " +
+			"C01.7 (=C07.1) permission timers are armed only from the permission timeout and channel timers only from the channel timeout (a swap lets one outlive its configured lifetime); " +
 			"C01.5 the expiry closures remove exactly their own entry (RemovePermission(p.Addr) deletes key FingerprintAddr(addr); RemoveChannelBind(c.Number) removes the element with that number).",
 		NotCovered: "that expiry happens at the right instant; the operator's policy; interleavings between the guard and the write.",
 		Run:        runC01,
@@ -29,6 +31,8 @@ func runC01(c *Ctx) {
 	ruleInstallSinks(c, "C01.3")
 	ruleGuardDefs(c, "C01.4")
 	ruleExpiryRemoves(c, "C01.5")
+	ruleInstalledAddrFresh(c, "C01.6")
+	ruleTimerRoles(c, "C01.7")
 }
 
 // ---------------------------------------------------------------------------------
@@ -694,4 +698,56 @@ func timeAfterFunc(w *World) *ssa.Function {
 		failf("anchor unresolved: time.AfterFunc")
 	}
 	return w.Prog.FuncValue(obj)
+}
+
+// ruleInstalledAddrFresh: the address object installed in a long-lived permission / channel
+// binding must not share storage with later decodes. pion/stun's XOR address decoder re-uses
+// the destination's IP backing array, so a PeerAddress variable that outlives one decode+install
+// (e.g. hoisted out of the per-attribute callback) lets the next decode overwrite the bytes of
+// the IP held by the permission already installed: its expiry then removes the wrong key and
+// the first peer's permission never expires.
+func ruleInstalledAddrFresh(c *Ctx, rule string) {
+	w := c.W
+	c.Rule(rule, "installed addresses do not alias decode storage: for every NewPermission / NewChannelBind call in package server, the proto.PeerAddress whose IP is copied into the installed net.UDPAddr literal is a local variable of the very function (literal) that performs the install — decoded and installed once per invocation — not a variable captured from an enclosing function or otherwise shared between decodes", 2)
+	newPerm := w.Func("allocation", "", "NewPermission")
+	newBind := w.Func("allocation", "", "NewChannelBind")
+	serverPath := w.tpkg("server").Path()
+	for _, target := range []*ssa.Function{newPerm, newBind} {
+		argIdx := 0
+		if target == newBind {
+			argIdx = 1
+		}
+		for _, cs := range w.callsTo(target) {
+			fn := cs.Parent()
+			if fnPkgPath(fn) != serverPath {
+				continue
+			}
+			c.Anchor(rule, fname(fn)+"."+target.Name())
+			lit := w.literalOf(cs.Common().Args[argIdx])
+			if lit == nil || lit.fields["IP"] == nil {
+				c.Undecided(rule, fname(fn), target.Name()+" address", w.instrPos(cs), "installed address is not a literal with an IP field")
+				continue
+			}
+			ip := lit.fields["IP"]
+			base, _, ok := fieldLoadAddrOfLoad(ip)
+			if !ok {
+				c.Undecided(rule, fname(fn), target.Name()+" address", w.instrPos(cs), "cannot identify the storage the installed IP is read from: "+w.key(ip))
+				continue
+			}
+			switch b := base.(type) {
+			case *ssa.Alloc:
+				if b.Parent() == fn {
+					// also: a GetFrom decode into it must not sit in a loop with the install without re-allocation —
+					// a local declared inside the loop body is a fresh Alloc per iteration in SSA
+					c.OK(rule, fname(fn), target.Name()+" address", w.instrPos(cs), "IP read from a PeerAddress local to this invocation ("+b.Comment+")")
+				} else {
+					c.Bad(rule, fname(fn), target.Name()+" address", w.instrPos(cs), "the installed IP is read from storage owned by another function")
+				}
+			case *ssa.FreeVar:
+				c.Bad(rule, fname(fn), target.Name()+" address", w.instrPos(cs), "the installed IP is read from a PeerAddress variable captured from the enclosing function ("+b.Name()+"): it is shared by every decode of this request, and the decoder re-uses the IP's backing array, so a later XOR-PEER-ADDRESS overwrites the address held by the permission installed earlier (which then never expires under its own key)")
+			default:
+				c.Bad(rule, fname(fn), target.Name()+" address", w.instrPos(cs), "the installed IP is read from shared storage "+w.key(base))
+			}
+		}
+	}
 }
